@@ -1,5 +1,5 @@
 // Harnesses over the top-table flush arithmetic lifted from src/dev/cache.rs; child of `crate::dev`.
-// @module-needs env header seg:K0 seg:K1 seg:K2
+// @module-needs env header seg:K0 seg:K1 seg:K2 seg:FM
 #![allow(dead_code, unused_imports)]
 use super::*;
 use crate::dev::verif_env::*;
@@ -132,5 +132,43 @@ fn c16_top_table_flush() {
         kani::cover!(n == 2);
         core::mem::forget(r);
     }
+    core::mem::forget(env);
+}
+
+// @harness c18_flush_meta_driver
+// @props C18 C03
+// @tier quick
+// @cost 30
+// @timeout 600
+// @needs FM
+// @desc the whole body of flush_meta (lock and the two flush helpers shimmed; the mapping flush reports "not done" a symbolic number of times): every pass flushes the refcounts BEFORE the mappings; need_flush is cleared exactly once, after a pass in which the mapping flush reported that nothing is left, and never before; it returns Ok
+// @bounds 0..=2 unfinished passes before the final one
+// @funcs Qcow2Dev::flush_meta (whole body)
+// @stub alloc::fmt::format -> String::new()
+#[kani::proof]
+#[kani::unwind(5)]
+#[kani::stub(std::fmt::format, fmt_stub2)]
+fn c18_flush_meta_driver() {
+    let env = KEnv::new(crate::meta::verif_header::mk_info(16, 4, 1u64 << 40, 9, Some((9, 1024)), Some((9, 1024)), false, false, false));
+    let passes: usize = kani::any();
+    kani::assume(passes <= 2);
+    env.passes_left.set(passes);
+    env.mark_need_flush(true);
+    let r = env.seg_fm();
+    assert!(r.is_ok());
+    assert!(!env.need_flush_meta());
+    let n = env.nrec.get();
+    assert!(n == 2 * (passes + 1));
+    let mut k = 0;
+    while k < 3 {
+        if k <= passes {
+            assert!(env.get_rec(2 * k).kind == K_FLUSH_REFCOUNT);
+            assert!(env.get_rec(2 * k + 1).kind == K_FLUSH_MAPPING);
+        }
+        k += 1;
+    }
+    kani::cover!(passes == 2);
+    kani::cover!(passes == 0);
+    core::mem::forget(r);
     core::mem::forget(env);
 }
